@@ -12,7 +12,11 @@ with T_c built from the parameter *values* of the case:
                   sampled field is the parameter tensor (DDF), the closed form ((I+H/2^k)^(2^k) - I) x of an
                   invariant affine velocity (SVF, SVFFD; props/c11.py) or the analytic cubic B-spline of the
                   coefficients (FFD);
-  composites      Sequential: member maps composed in listed order, MultiLevel: x + sum_i (T_i(x) - x).
+  composites      Sequential: member maps composed in listed order, MultiLevel: x + sum_i (T_i(x) - x); members may be
+                  composites or generic configurations (reference trees SeqRef / MultiRef).
+forward(x, grid=True) is the same map: the flag only states that x are undeformed grid points of the transform domain, which
+lets a dense model resize its field (the same multilinear interpolant) instead of sampling it - a later member of a sequence
+never sees undeformed points.
 """
 from __future__ import annotations
 
@@ -31,18 +35,26 @@ from vlib.findings import Known
 PROPERTY = "C06"
 MANIFEST = {
     "text": "Every transformation class of deepali.spatial (7 elementary linear, 5 composite linear, displacement field, "
-            "stationary velocity field, FFD, SVFFD, Sequential/MultiLevel composites of 1-3 members, GenericSpatialTransform "
+            "stationary velocity field, FFD, SVFFD, Sequential/MultiLevel composites of 1-3 members which may themselves be "
+            "composites or GenericSpatialTransform configurations and may mix 1 and N parameter groups, GenericSpatialTransform "
             "configurations) is built on generated oriented anisotropic grids (D in {2,3}, both align_corners, groups 1 and 2) "
             "with parameters set through the public setters, and every view (forward on point sets and grid shaped tensors, "
-            "disp/flow on its own, a same-domain, a cropped, an align_corners-flipped and an unrelated grid, tensor/matrix, "
-            "points() and PointSetTransformer for generated (grid, axes) pairs, ImageTransformer on generated target/source "
-            "grids) is compared with one float64 reference world map built in numpy from the parameter values and the "
-            "independent grid model; fresh transforms are compared with the identity. Exploration, not proof.",
+            "forward(x, grid=True) at the undeformed sample points of same-domain grids of any size - for elementary models, "
+            "composites and generic configurations -, disp/flow on its own, a same-domain, a cropped, an align_corners-flipped "
+            "and an unrelated grid, tensor/matrix, points() and PointSetTransformer for generated (grid, axes) pairs, "
+            "ImageTransformer with elementary, composite (linear, non-rigid, nested) and generic transforms on generated "
+            "target/source grids, with flip_coords and align_centers) is compared with one float64 reference world map built "
+            "in numpy from the parameter values and the independent grid model; fresh transforms are compared with the "
+            "identity. Exploration, not proof.",
     "note": "Trusted: vlib/ref.py (grid model, rotations, interpolation, B-spline basis, scaling-and-squaring closed form), the "
             "reference classes in props/c06.py. Dense parameter fields are cube-affine, hash-noise (reference = multilinear "
-            "interpolation, which is the documented point map of a dense model), invariant affine velocities and affine or "
-            "hash-noise spline coefficients. Bounds 64*eps32*condition with the condition computed from the reference "
-            "(|R| diag(h) |J| diag(1/h) |R^T| amplification through the cube of an oblique anisotropic grid).",
+            "interpolation, which is the documented point map of a dense model and also what resizing the field under "
+            "grid=True computes), invariant affine velocities and affine or hash-noise spline coefficients. The reference of a "
+            "sequence evaluates every dense member at the already mapped point, that of a multi-level composite evaluates all "
+            "members at the input point; comparisons are restricted to points for which every dense (sub-)member is evaluated "
+            "inside the hull of its samples. Bounds 64*eps32*condition with the condition computed from the reference "
+            "(|R| diag(h) |J| diag(1/h) |R^T| amplification through the cube of an oblique anisotropic grid; product of the "
+            "member |J| for sequences; times the number of leaves of a composite).",
     "technique": "property-based testing (Hypothesis) against a float64 reference world map (closed forms for every model), "
                  "linear-ramp images for warping",
 }
@@ -51,11 +63,27 @@ ASSUMPTIONS = [
     "parameters: offsets in [-0.5,0.5] cube units, angles in (-pi,pi), scales in [0.5,2], shear angles in (-pi/4,pi/4), "
     "homogeneous matrices I + [-0.3,0.3]; dense fields of amplitude <= 0.25 cube units",
     "dense views are compared at points inside the hull of the sample points of the transform grid (outside, extrapolation "
-    "differs between border-clamped point sampling and zero-padded field resampling and is not stated by the property)",
+    "differs between border-clamped point sampling and zero-padded field resampling and is not stated by the property); in a "
+    "sequence this applies to the point each dense member receives",
     "B-spline models require align_corners=True grids (constructor contract)",
-    "flip_coords=True is only exercised with linear transforms (T applies to (z,y,x) coordinates: y = P T(P x))",
+    "members of a composite may live on their own grids of the same cube domain and the same align_corners convention but "
+    "another size (CompositeTransform.__init__ only requires same_domain_as); members whose convention differs from the "
+    "composite's are not generated (what grid=True means for them is not stated)",
+    "parameters changed in place (optimizer style) are only observed through evaluations that run the update() pre-hook "
+    "(transform(x), ImageTransformer, PointSetTransformer, enclosing composites); tensor()/disp() are read after such a call "
+    "or after an explicit update()",
+    "forward(x, grid=True) is only called with x = the undeformed sample points of a grid spanning the domain of the transform "
+    "grid (documented precondition of the flag); under it the result must be the same map as forward(x)",
+    "members of a composite with different numbers of parameter groups are 1 and N (broadcast as documented for "
+    "transform_points/transform_grid)",
+    "flip_coords=True is only exercised with linear transforms incl. linear composites (T applies to (z,y,x) coordinates: "
+    "y = P T(P x)); for dense models the meaning of the flag is not stated",
+    "align_centers=True is only exercised with targets centred on the transform grid (own, resized, align_corners-flipped), "
+    "where 'the target' of the docstring can only mean one centre; reference = source grid re-centred on the transform grid",
     "warping uses an image that is a linear ramp in the index space of the source grid, border padding, linear sampling; "
     "only target samples whose reference position T(x) lies at least 0.02 samples inside the source sample hull are compared",
+    "MultiLevelTransform.forward passes grid=True only to its first member; passing it to every member would be the same map "
+    "(all members are evaluated at the undeformed points), so that choice is not observable and not asserted",
 ]
 
 K = 64.0
@@ -100,6 +128,15 @@ class LinRef:
     def matrix(self, b):
         return self.mats[b % self.N]
 
+    def valid(self, x, b):
+        return np.ones(np.shape(x)[:-1], dtype=bool)
+
+    def leaves(self):
+        return 1
+
+    def effect(self):
+        return max(float(np.abs(m - np.eye(self.D, self.D + 1)).max()) for m in self.mats)
+
 
 class DenseRef:
     """x -> x + u(x): u multilinear interpolation with border clamp of samples u[N, D, ..., X] (cube units) located on a
@@ -143,6 +180,17 @@ class DenseRef:
     def shift(self):
         return float(np.abs(self.u).max())
 
+    def valid(self, x, b):
+        """Points inside the hull of the samples (outside, extrapolation is not part of the property)."""
+        lim = np.ones(self.D) if self.ac else 1.0 - 1.0 / self.n
+        return np.all(np.abs(np.asarray(x, dtype=np.float64)) <= lim + 1e-9, axis=-1)
+
+    def leaves(self):
+        return 1
+
+    def effect(self):
+        return float(np.abs(self.u).max())
+
 
 class SeqRef:
     def __init__(self, members):
@@ -175,6 +223,21 @@ class SeqRef:
             M = ref.hmul(m.matrix(b), M)
         return M
 
+    def valid(self, x, b):
+        """Every dense (sub-)member is evaluated inside its sample hull: x for the first, the mapped point for later ones."""
+        x = np.asarray(x, dtype=np.float64)
+        ok = np.ones(x.shape[:-1], dtype=bool)
+        for m in self.members:
+            ok &= m.valid(x, b)
+            x = m.cube(x, b)
+        return ok
+
+    def leaves(self):
+        return sum(m.leaves() for m in self.members)
+
+    def effect(self):
+        return max(m.effect() for m in self.members)
+
 
 class MultiRef:
     def __init__(self, members):
@@ -202,6 +265,19 @@ class MultiRef:
         I = np.eye(D, D + 1)
         return I + sum(m.matrix(b) - I for m in self.members)
 
+    def valid(self, x, b):
+        x = np.asarray(x, dtype=np.float64)
+        ok = np.ones(x.shape[:-1], dtype=bool)
+        for m in self.members:
+            ok &= m.valid(x, b)
+        return ok
+
+    def leaves(self):
+        return sum(m.leaves() for m in self.members)
+
+    def effect(self):
+        return max(m.effect() for m in self.members)
+
 
 class FlipRef:
     """y = P T(P x) with P the reversal of the coordinate order (flip_coords semantics of ImageTransformer)."""
@@ -221,6 +297,15 @@ class FlipRef:
 
     def shift(self):
         return self.inner.shift()
+
+    def valid(self, x, b):
+        return self.inner.valid(np.asarray(x)[..., ::-1], b)
+
+    def leaves(self):
+        return self.inner.leaves()
+
+    def effect(self):
+        return self.inner.effect()
 
 
 class WorldMap:
@@ -335,6 +420,25 @@ def selftest():
     u = ffd_field(coef[None], (5, 7), (2, 3))[0]
     x = cube_coords((5, 7), True)
     assert np.allclose(np.moveaxis(u, 0, -1), x @ np.array([[0.1, -0.05], [0.02, 0.07]]).T + [0.02, -0.01], atol=1e-13)
+    # composite references: listed order = order of application; multi-level adds displacements; validity follows the points
+    A = LinRef([elem_matrix("aniso", [2.0, 0.5], 2)])
+    B = LinRef([elem_matrix("translation", [0.3, -0.1], 2)])
+    p = np.array([[0.2, -0.4]])
+    assert np.allclose(SeqRef([A, B]).cube(p, 0), [[0.7, -0.3]]) and np.allclose(SeqRef([B, A]).cube(p, 0), [[1.0, -0.25]])
+    assert np.allclose(ref.happly(SeqRef([A, B]).matrix(0), p), SeqRef([A, B]).cube(p, 0))
+    assert np.allclose(MultiRef([A, B]).cube(p, 0), p + (p * [2.0, 0.5] - p) + [0.3, -0.1])
+    assert np.allclose(ref.happly(MultiRef([A, B]).matrix(0), p), MultiRef([A, B]).cube(p, 0))
+    xs = cube_coords((4, 5), True)
+    Dn = DenseRef(np.moveaxis(0.1 * xs[..., ::-1] ** 2, -1, 0)[None], True)  # u(x, y) = 0.1 (y^2, x^2) at the samples
+    q = np.array([[0.8, 0.0], [0.5, 0.0]])
+    far = LinRef([elem_matrix("translation", [0.3, 0.0], 2)])
+    assert list(SeqRef([far, Dn]).valid(q, 0)) == [False, True] and list(SeqRef([Dn, far]).valid(q, 0)) == [True, True]
+    assert list(MultiRef([far, Dn]).valid(q, 0)) == [True, True]
+    assert np.allclose(SeqRef([far, Dn]).cube(q[1:], 0), q[1:] + [0.3, 0.0] + Dn.disp(q[1:] + [0.3, 0.0], 0))
+    assert not np.allclose(SeqRef([far, Dn]).cube(q[1:], 0), q[1:] + [0.3, 0.0] + Dn.disp(q[1:], 0), atol=1e-3)
+    assert dense_after_moving(SeqRef([far, Dn])) and not dense_after_moving(SeqRef([Dn, far])) and not dense_after_moving(MultiRef([far, Dn]))
+    assert dense_after_moving(MultiRef([B, SeqRef([far, Dn])])) and SeqRef([A, MultiRef([B, Dn])]).leaves() == 3
+    assert np.allclose(FlipRef(A).cube(p, 0), p * [0.5, 2.0]) and list(FlipRef(SeqRef([far, Dn])).valid(q[:, ::-1], 0)) == [False, True]
     # derived grids of the generators describe what they claim
     gd = dict(g, size=[6, 5], kind="rotation")
     mg = ref.GridModel.from_desc(gd)
@@ -593,7 +697,7 @@ def dense_specs(draw, g: dict, N: int, classes=None):
     if classes is not None:
         names = [n for n in names if n in classes]
     name = draw(st.sampled_from(names))
-    spec = {"cls": name, "route": draw(st.sampled_from(["ctor", "ctor_param", "data_"]))}
+    spec = {"cls": name, "route": draw(st.sampled_from(["ctor", "ctor_param", "data_", "inplace"]))}
     if name == "DisplacementFieldTransform":
         spec["field"] = draw(st.sampled_from(["affine", "noise"]))
     elif name == "FreeFormDeformation":
@@ -690,6 +794,14 @@ def build_dense(spec: dict, grid, g: dict):
         t = cls(grid, groups=N, params=p, **kw)
     elif spec["route"] == "ctor_param":
         t = cls(grid, params=torch.nn.Parameter(p), **kw)
+    elif spec["route"] == "inplace":
+        # optimizer style: buffers as an earlier evaluation left them (identity parameters), then an in-place step of the
+        # parameters; every later evaluation through __call__ (update() is a forward pre-hook, also of an enclosing
+        # composite / transformer) has to use the new values
+        t = cls(grid, groups=N, params=True, **kw)
+        t.update()
+        with torch.no_grad():
+            t.params.copy_(p)
     else:
         t = cls(grid, groups=N, params=True, **kw)
         t.data_(p)
@@ -711,11 +823,56 @@ def dense_effect(r: DenseRef) -> float:
 # generic ------------------------------------------------------------------------------------
 
 
+COMPOSITES = ("SequentialTransform", "MultiLevelTransform")
+
+
 def build_any(spec: dict, grid, g: dict):
+    """-> (deepali transform, reference in the cube of `g`) for a leaf, a (nested) composite or a generic configuration."""
     D = len(g["size"])
+    if spec["cls"] in COMPOSITES:
+        return build_tree(spec, grid, g)
+    if spec["cls"] == "GenericSpatialTransform":
+        t, r, _ = build_generic(spec, grid, g)
+        return t, r
+    if "gsize" in spec:
+        # member of a composite defined on its own grid: same cube domain and convention, other size (multi-resolution levels)
+        g = resized_grid(g, spec["gsize"])
+        grid = make_grid(g)
     if spec["cls"] in DENSE:
         return build_dense(spec, grid, g)
     return build_linear(spec, grid), linear_ref(spec, D)
+
+
+def tree_grid(spec: dict, g: dict) -> dict:
+    """Descriptor of the grid of the transform built from `spec` on `g`: a composite constructed without a grid takes the
+    grid of its first member (CompositeTransform.__init__), a leaf with 'gsize' lives on a resized same-domain grid."""
+    if spec["cls"] in COMPOSITES:
+        if spec.get("ctor", "args") == "grid_args" or not spec["members"]:
+            return g
+        return tree_grid(spec["members"][0], g)
+    if "gsize" in spec:
+        return resized_grid(g, spec["gsize"])
+    return g
+
+
+def build_tree(spec: dict, grid, g: dict):
+    """Sequential / MultiLevel composite of leaves, generic transforms and composites (constructor forms of CompositeTransform)."""
+    import collections
+
+    import deepali.spatial as S
+
+    built = [build_any(s, grid, g) for s in spec["members"]]
+    ts = [b[0] for b in built]
+    refs = [b[1] for b in built]
+    cls = getattr(S, spec["cls"])
+    ctor = spec.get("ctor", "args")
+    if ctor == "args":
+        comp = cls(*ts)
+    elif ctor == "grid_args":
+        comp = cls(grid, *ts)
+    else:
+        comp = cls(collections.OrderedDict((f"m{i}", t) for i, t in enumerate(ts)))
+    return comp, (SeqRef(refs) if spec["cls"] == "SequentialTransform" else MultiRef(refs))
 
 
 @st.composite
@@ -724,6 +881,69 @@ def any_specs(draw, g: dict, N: int, dense_p=0.5):
     if min(g["size"]) >= 3 and draw(st.floats(0, 1)) < dense_p:
         return draw(dense_specs(g, N))
     return draw(linear_specs(D, N))
+
+
+@st.composite
+def member_specs(draw, g: dict, N: int, dense_p: float, depth: int, mixed_groups: bool):
+    """A member of a composite: a leaf with N (or, for N > 1, sometimes 1) groups, a nested composite or a generic transform."""
+    what = draw(st.integers(0, 9)) if depth > 0 else 9
+    if what == 0:
+        return draw(tree_specs(g, N, dense_p, depth - 1, 1, 2, mixed_groups))
+    if what == 1 and N == 1:
+        return draw(generic_specs(g, short=True))
+    Nm = 1 if (mixed_groups and N > 1 and draw(st.integers(0, 3)) == 0) else N
+    if draw(st.integers(0, 2)) == 0:
+        # the member is defined on its own grid of the same domain (coarser / finer level)
+        D = len(g["size"])
+        gsize = draw(st.lists(st.integers(3, 9 if D == 2 else 6), min_size=D, max_size=D))
+        spec = draw(any_specs(resized_grid(g, gsize), Nm, dense_p))
+        spec["gsize"] = gsize
+        return spec
+    return draw(any_specs(g, Nm, dense_p))
+
+
+@st.composite
+def tree_specs(draw, g: dict, N: int, dense_p=0.6, depth=1, kmin=1, kmax=3, mixed_groups=True):
+    k = draw(st.integers(kmin, kmax))
+    return {"cls": draw(st.sampled_from(COMPOSITES)), "ctor": draw(st.sampled_from(["args", "grid_args", "dict"])),
+            "members": [draw(member_specs(g, N, dense_p, depth, mixed_groups)) for _ in range(k)]}
+
+
+def describe(spec: dict) -> str:
+    """Structure of a spec tree for messages, e.g. Sequential[Translation, MultiLevel[DisplacementFieldTransform, Shearing]]."""
+    if spec["cls"] in COMPOSITES:
+        return spec["cls"].replace("Transform", "") + "[" + ", ".join(describe(s) for s in spec["members"]) + "]"
+    if spec["cls"] == "GenericSpatialTransform":
+        return f"Generic('{spec['transform']}', '{spec['affine_model']}')"
+    return spec["cls"] + (f"(groups={spec['N']})" if spec.get("N", 1) > 1 else "") + \
+        (f"(groups={len(spec['groups'])})" if len(spec.get("groups", [1])) > 1 else "")
+
+
+def spec_classes(spec: dict):
+    """Class names of all leaves of a spec tree (labels)."""
+    if spec["cls"] in COMPOSITES:
+        return sorted({c for s in spec["members"] for c in spec_classes(s)})
+    if spec["cls"] == "GenericSpatialTransform":
+        return ["Generic:" + spec["transform"]]
+    return [spec["cls"]]
+
+
+def dense_after_moving(r) -> bool:
+    """Does the reference tree contain a sequence in which a non-rigid member follows members that moved the point?
+    (class of inputs for which grid points handed to a later member are no longer undeformed grid points; label only)"""
+    r = getattr(r, "inner", r)
+    members = getattr(r, "members", None)
+    if members is None:
+        return False
+    if any(dense_after_moving(m) for m in members):
+        return True
+    if isinstance(r, SeqRef):
+        moved = False
+        for m in members:
+            if moved and not m.linear:
+                return True
+            moved = moved or m.effect() >= 0.02
+    return False
 
 
 # ---------------------------------------------------------------------------------------
@@ -1016,7 +1236,10 @@ def run_views(case, dense: bool):
     if case["via"] == "points":
         out = t.points(xin, **kw)
     else:
-        out = S.PointSetTransformer(t, **kw)(xin)
+        # a transformer evaluates the transform as a functor (update() pre-hook): with parameters changed in place it has to
+        # be correct also when it is the first evaluation after the change -> use a transform nobody has evaluated yet
+        tp = build_any(spec, grid, g)[0] if spec.get("route") == "inplace" else t
+        out = S.PointSetTransformer(tp, **kw)(xin)
     xw_in = mp.points(xin.double().numpy(), pa, "world")
     yw = np.stack([wm.world(xw_in[b % case["Nb"]], b) for b in range(Ny)])
     expect_q = mq.points(yw, "world", qa)
@@ -1050,15 +1273,18 @@ def composite_cases(draw):
     D = draw(gen.dims())
     g = draw(tgrids(D, 3, 9 if D == 2 else 6))
     N = draw(st.sampled_from([1, 1, 2]))
-    k = draw(st.integers(1, 3))
     flavour = draw(st.sampled_from(["linear", "mixed", "mixed"]))
-    members = []
-    for _ in range(k):
-        members.append(draw(any_specs(g, N, dense_p=0.0 if flavour == "linear" else 0.6)))
-    og, okind = draw(related_grids(g, kinds=("own", "resized", "other", "cropped")))
-    return {"D": D, "grid": g, "kind": draw(st.sampled_from(["SequentialTransform", "MultiLevelTransform"])), "members": members,
+    tree = draw(tree_specs(g, N, dense_p=0.0 if flavour == "linear" else 0.6, depth=1))
+    og, okind = draw(related_grids(g, kinds=("own", "resized", "other", "cropped", "flip_ac")))
+    pg = draw(st.one_of(st.none(), related_grids(g, kinds=("own", "other", "cropped", "flip_ac")).map(lambda a: a[0])))
+    qg = draw(st.one_of(st.none(), related_grids(g, kinds=("own", "other", "resized")).map(lambda a: a[0])))
+    return {"D": D, "grid": g, "kind": tree["cls"], "members": tree["members"], "ctor": tree["ctor"],
             "rel": draw(rel_points(D, 2, 6)), "Nb": draw(st.sampled_from([1, N])), "form": draw(st.sampled_from(["set", "grid"])),
-            "ctor": draw(st.sampled_from(["args", "grid_args", "dict"])), "other": og, "other_kind": okind}
+            "other": og, "other_kind": okind,
+            "gsize": draw(st.lists(st.integers(2, 9 if D == 2 else 6), min_size=D, max_size=D)),
+            "pgrid": pg, "paxes": draw(st.sampled_from(["world", "cube", "cube_corners", "grid", None])),
+            "qgrid": qg, "qaxes": draw(st.sampled_from(["world", "cube", "cube_corners", "grid", None])),
+            "via": draw(st.sampled_from(["points", "transformer"]))}
 
 
 def _member_params(ts):
@@ -1066,30 +1292,99 @@ def _member_params(ts):
     return [mod.params.detach() for t in ts for mod in t.modules() if isinstance(getattr(mod, "params", None), torch.Tensor)]
 
 
-def run_composite(case):
-    import collections
+def check_forward_grid(t, r, wm: WorldMap, sizes, kind: str, what: str, dt=torch.float32):
+    """t(x, grid=True), x = the undeformed sample points of grids that span the domain of the transform grid (any size), vs
+    the reference map at those points.  grid=True only licenses a dense model to resize its field instead of sampling it:
+    both are the same multilinear interpolant of the field samples, so the reference is the one used for t(x)."""
+    m = wm.m
+    N = r.N
+    worst, ncomp = 0.0, 0
+    for size in sizes:
+        xg = cube_coords(tuple(size[::-1]), m.ac)
+        yg = t(torch.tensor(xg[None], dtype=dt), grid=True)
+        eg = np.stack([r.cube(xg, b) for b in range(N)])
+        if tuple(yg.shape) != eg.shape:
+            raise Violation(kind.replace("forward_grid", "forward_grid_shape"),
+                            f"t(x{(1,) + xg.shape}, grid=True) has shape {tuple(yg.shape)}, expected {eg.shape}")
+        ok = np.stack([r.valid(xg, b) for b in range(N)])
+        sel = np.broadcast_to(ok[..., None], eg.shape)
+        worst = max(worst, check_close(np.where(sel, yg.detach().double().numpy(), 0.0), np.where(sel, eg, 0.0),
+                                       wm.cube_bound(xg) * r.leaves(), kind,
+                                       f"{what}(x, grid=True) at the sample points of a same-domain grid of size {list(size)}"))
+        ncomp += int(ok.sum())
+    return worst, ncomp
 
+
+def check_points_api(t, r, wm: WorldMap, case: dict, xc: np.ndarray, dt, tag: str, dense: bool, own=None):
+    """t.points(x, grid, axes, to_grid, to_axes) / PointSetTransformer(t, ...)(x) vs the reference world map.
+    `own` = descriptor of t.grid() (default of the `grid` argument) if it is not the grid of `wm`."""
     import deepali.spatial as S
 
+    m = wm.m
+    D = m.D
+    ax = cax(m.ac)
+    Nb = xc.shape[0]
+    Ny = max(r.N, Nb)
+    pg, qg = case.get("pgrid"), case.get("qgrid")
+    mp = (m if own is None else ref.GridModel.from_desc(own)) if pg is None else ref.GridModel.from_desc(pg)
+    mq = mp if qg is None else ref.GridModel.from_desc(qg)
+    pa = case.get("paxes") or ax      # axes default: those of the transform
+    qa = case.get("qaxes") or pa      # to_axes default: axes
+    via = case.get("via", "points")
+    xw_arr = m.points(xc, ax, "world")
+    xin = torch.tensor(mp.points(xw_arr, "world", pa), dtype=dt)
+    kw = {}
+    if pg is not None:
+        kw["grid"] = make_grid(pg)
+    if qg is not None:
+        kw["to_grid"] = make_grid(qg)
+    if case.get("paxes") is not None:
+        kw["axes"] = pa if via == "points" else _axes(pa)
+    if case.get("qaxes") is not None:
+        kw["to_axes"] = _axes(qa)
+    if via == "points":
+        out = t.points(xin, **kw)
+    else:
+        out = S.PointSetTransformer(t, **kw)(xin)
+    xw_in = mp.points(xin.double().numpy(), pa, "world")
+    yw = np.stack([wm.world(xw_in[b % Nb], b) for b in range(Ny)])
+    expect_q = mq.points(yw, "world", qa)
+    if tuple(out.shape) != expect_q.shape:
+        raise Violation(f"points_shape:{tag}", f"{via} output shape {tuple(out.shape)}, expected {expect_q.shape}")
+    Lq = mq.matrix("world", qa)[:, :D]
+    pb = K * EPS32 * (float(np.abs(Lq).sum(1).max()) * (wm.cond(xw_in, yw) + mp.cond(pa, "world", xin.double().numpy())) + 1.0
+                      + float(np.abs(expect_q).max())) * r.leaves()
+    if dense:
+        # float32 input re-expressed in the cube may fall just outside the sample hull: tolerance of 1e-6 cube units
+        xcube = wm.to_cube(xw_in)
+        ins = np.stack([r.valid(xcube[b % Nb] * (1.0 - 1e-6), b) for b in range(Ny)])
+    else:
+        ins = np.ones(expect_q.shape[:-1], dtype=bool)
+    ins = np.broadcast_to(ins[..., None], expect_q.shape)
+    kind = "points_api" if via == "points" else "pointset_transformer"
+    pname = "own" if pg is None else pg["kind"]
+    qname = "same" if qg is None else qg["kind"]
+    ratio = check_close(np.where(ins, out.detach().double().numpy(), 0.0), np.where(ins, expect_q, 0.0), pb, f"{kind}:{tag}",
+                        f"{via}(x; {pa}@{pname} -> {qa}@{qname}) vs reference world map")
+    return ratio, f"{pa}->{qa}"
+
+
+def run_composite(case):
     D, g = case["D"], case["grid"]
     grid = make_grid(g)
     m = ref.GridModel.from_desc(g)
-    built = [build_any(s, grid, g) for s in case["members"]]
-    ts = [b[0] for b in built]
-    refs = [b[1] for b in built]
-    cls = getattr(S, case["kind"])
-    if case["ctor"] == "args":
-        comp = cls(*ts)
-    elif case["ctor"] == "grid_args":
-        comp = cls(grid, *ts)
-    else:
-        comp = cls(collections.OrderedDict((f"m{i}", t) for i, t in enumerate(ts)))
-    r = SeqRef(refs) if case["kind"] == "SequentialTransform" else MultiRef(refs)
+    spec = {"cls": case["kind"], "members": case["members"], "ctor": case["ctor"]}
+    comp, r = build_tree(spec, grid, g)
+    ts = list(comp.transforms())
+    refs = r.members
+    nl = r.leaves()
     wm = WorldMap(r, m)
     N = r.N
     tag = case["kind"] + (":linear" if r.linear else ":nonrigid")
+    names = spec_classes(spec)
+    what = describe(spec)
     if comp.linear != r.linear:
-        raise Violation("composite_linear_flag", f"{case['kind']}.linear = {comp.linear} for members {[s['cls'] for s in case['members']]}")
+        raise Violation("composite_linear_flag", f"{case['kind']}.linear = {comp.linear} for members {names}")
     before = [p.clone() for p in _member_params(ts)]
     xc = arrange(cube_points(m, case["rel"]), case["Nb"], case["form"])
     x = torch.tensor(xc, dtype=torch.float32)
@@ -1098,33 +1393,21 @@ def run_composite(case):
     expect = np.stack([r.cube(xc[b % case["Nb"]], b) for b in range(Ny)])
     if tuple(y.shape) != expect.shape:
         raise Violation(f"forward_shape:{tag}", f"composite(x{tuple(x.shape)}) has shape {tuple(y.shape)}, expected {expect.shape}")
-    # intermediate points of a sequence may leave the sample hull: compare where every stage stays inside (dense members)
-    ok = np.ones(expect.shape[:-1], dtype=bool)
-    if not r.linear and case["kind"] == "SequentialTransform":
-        for b in range(Ny):
-            p = xc[b % case["Nb"]]
-            for mr in refs:
-                if not mr.linear:
-                    ok[b] &= np.all(np.abs(p) <= (1.0 if m.ac else 1.0 - 1.0 / m.n), axis=-1)
-                p = mr.cube(p, b)
+    # intermediate points of a sequence may leave the sample hull: compare where every dense member is evaluated inside it
+    ok = np.stack([r.valid(xc[b % case["Nb"]], b) for b in range(Ny)])
     sel = np.broadcast_to(ok[..., None], expect.shape)
     order = "B(A(x))" if case["kind"] == "SequentialTransform" else "x + sum (T_i(x) - x)"
-    worst = check_close(np.where(sel, y.detach().double().numpy(), 0.0), np.where(sel, expect, 0.0), wm.cube_bound(xc) * len(refs),
-                        f"composite_forward:{tag}", f"{case['kind']}{[s['cls'] for s in case['members']]}(x) vs {order}")
+    worst = check_close(np.where(sel, y.detach().double().numpy(), 0.0), np.where(sel, expect, 0.0), wm.cube_bound(xc) * nl,
+                        f"composite_forward:{tag}", f"{what}(x) vs {order}")
+    # forward(x, grid=True): the flag says that x are undeformed grid points, it does not change the map
+    rg, ngrid = check_forward_grid(comp, r, wm, (g["size"], case.get("gsize") or g["size"]), f"composite_forward_grid:{tag}", what)
+    worst = max(worst, rg)
     T = comp.tensor()
-    xs = cube_coords(tuple(g["size"][::-1]), m.ac)
-    oks = np.ones(xs.shape[:-1], dtype=bool)
-    want_d = []
-    for b in range(N):
-        p = xs
-        if not r.linear and case["kind"] == "SequentialTransform":
-            for mr in refs:
-                if not mr.linear:
-                    oks &= np.all(np.abs(p) <= (1.0 if m.ac else 1.0 - 1.0 / m.n) + 1e-9, axis=-1)
-                p = mr.cube(p, b)
-        want_d.append(np.moveaxis(r.cube(xs, b) - xs, -1, 0))
-    want_d = np.stack(want_d)
-    seld = np.broadcast_to(oks[None, None], want_d.shape)
+    cg = tree_grid(spec, g)  # grid of the composite: the given one or that of its first member
+    xs = cube_coords(tuple(cg["size"][::-1]), m.ac)
+    oks = np.stack([r.valid(xs, b) for b in range(N)])
+    want_d = np.stack([np.moveaxis(r.cube(xs, b) - xs, -1, 0) for b in range(N)])
+    seld = np.broadcast_to(oks[:, None], want_d.shape)
     if r.linear:
         want = np.stack([r.matrix(b) for b in range(N)])
         if T.ndim != 3 or T.shape[1] != D or T.shape[2] not in (1, D, D + 1):
@@ -1135,48 +1418,68 @@ def run_composite(case):
             full[:, :, D] = Tn[:, :, 0]
         else:
             full[:, :, : T.shape[2]] = Tn
-        mb = K * EPS32 * (float(np.abs(want).max()) + 1.0) * D * len(refs) * max(1.0, float(r.absjac().max()))
+        mb = K * EPS32 * (float(np.abs(want).max()) + 1.0) * D * nl * max(1.0, float(r.absjac().max()))
         worst = max(worst, check_close(full, np.broadcast_to(want, full.shape) if full.shape[0] == want.shape[0] else want, mb,
-                                       f"composite_tensor:{tag}", f"tensor() of {case['kind']}{[s['cls'] for s in case['members']]} vs reference matrix"))
+                                       f"composite_tensor:{tag}", f"tensor() of {what} vs reference matrix"))
     else:
         if tuple(T.shape) != want_d.shape:
             raise Violation(f"tensor_shape:{tag}", f"tensor() has shape {tuple(T.shape)}, expected {want_d.shape}")
-        worst = max(worst, check_close(np.where(seld, T.detach().double().numpy(), 0.0), np.where(seld, want_d, 0.0), wm.cube_bound(xs) * len(refs),
+        worst = max(worst, check_close(np.where(seld, T.detach().double().numpy(), 0.0), np.where(seld, want_d, 0.0), wm.cube_bound(xs) * nl,
                                        f"composite_tensor:{tag}", "tensor() of a non-rigid composite vs reference displacement at the sample points"))
     comp.update()
     d0 = comp.disp()
     if tuple(d0.shape) != want_d.shape:
         raise Violation(f"disp_shape:{tag}", f"disp() has shape {tuple(d0.shape)}, expected {want_d.shape}")
-    worst = max(worst, check_close(np.where(seld, d0.detach().double().numpy(), 0.0), np.where(seld, want_d, 0.0), wm.cube_bound(xs) * len(refs),
-                                   f"composite_disp:{tag}", "disp() vs forward reference at the sample points"))
+    worst = max(worst, check_close(np.where(seld, d0.detach().double().numpy(), 0.0), np.where(seld, want_d, 0.0), wm.cube_bound(xs) * nl,
+                                   f"composite_disp:{tag}", f"disp() of {what} vs forward reference at the sample points"))
+    # disp / flow on another grid (composites re-express the points and evaluate the members there)
+    nother = 0
+    if not (KNOWN.active("F21") and N > 1 and not r.linear):
+        og = case["other"]
+        okind = case["other_kind"]
+        ogrid = make_grid(og)
+        mo = ref.GridModel.from_desc(og)
+        xw = mo.world_points()
+        ao = cax(mo.ac)
+        mask = np.stack([r.valid(wm.to_cube(xw), b) for b in range(N)])
+        exp_w = np.stack([wm.world(xw, b) - xw for b in range(N)])
+        Lo = mo.matrix("world", ao)[:, :D]
+        exp_o = np.moveaxis(exp_w @ Lo.T, -1, 1)
+        d = comp.disp(ogrid)
+        if tuple(d.shape) != exp_o.shape:
+            raise Violation(f"disp_shape:{tag}", f"disp(other grid) has shape {tuple(d.shape)}, expected {exp_o.shape}")
+        bo = K * EPS32 * (float(np.abs(Lo).sum(1).max()) * wm.cond(xw, xw + exp_w) * nl + 1.0 + float(np.abs(exp_o).max()))
+        selo = np.broadcast_to(mask[:, None], exp_o.shape)
+        worst = max(worst, check_close(np.where(selo, d.detach().double().numpy(), 0.0), np.where(selo, exp_o, 0.0), bo,
+                                       f"composite_disp_on_{okind}_grid:{tag}", f"disp({okind} grid, ac={og['ac']}) of {what} vs reference"))
+        fl = comp.flow(ogrid)
+        if fl.grid() != ogrid or fl.grid().align_corners() != ogrid.align_corners():
+            raise Violation(f"flow_grid:{tag}", f"flow({okind} grid).grid() is not the requested grid")
+        fa = fl.axes().value
+        Lf = mo.matrix(fa, "world")[:, :D]
+        fw = np.moveaxis(fl.tensor().detach().double().numpy(), 1, -1) @ Lf.T  # numbers read with the labelled axes
+        bw = K * EPS32 * (wm.cond(xw, xw + exp_w) + float(np.abs(exp_w).max())) * nl
+        selw = np.broadcast_to(mask[..., None], exp_w.shape)
+        worst = max(worst, check_close(np.where(selw, fw, 0.0), np.where(selw, exp_w, 0.0), bw, f"composite_flow_on_{okind}_grid:{tag}",
+                                       f"flow({okind} grid) of {what} read with its own axes label '{fa}' vs reference world displacement"))
+        nother = int(mask.sum())
     after = _member_params(ts)
     if len(before) != len(after) or any(not torch.equal(a, b) for a, b in zip(before, after)):
         raise Violation(f"composite_mutates_member:{case['kind']}", "evaluating the composite changed a member's parameters/buffers")
-    # disp on another grid (composites re-express the points)
-    if r.linear or case["other_kind"] in ("own", "resized"):
-        if not (KNOWN.active("F21") and N > 1 and not r.linear):
-            og = case["other"]
-            mo = ref.GridModel.from_desc(og)
-            xw = mo.world_points()
-            ao = cax(mo.ac)
-            mask = inside_hull(m, xw, 0.0) if not r.linear else np.ones(xw.shape[:-1], dtype=bool)
-            if not r.linear and case["kind"] == "SequentialTransform":
-                mask = mask & False if case["other_kind"] != "own" else mask & oks
-            exp_w = np.stack([wm.world(xw, b) - xw for b in range(N)])
-            Lo = mo.matrix("world", ao)[:, :D]
-            exp_o = np.moveaxis(exp_w @ Lo.T, -1, 1)
-            d = comp.disp(make_grid(og))
-            if tuple(d.shape) != exp_o.shape:
-                raise Violation(f"disp_shape:{tag}", f"disp(other grid) has shape {tuple(d.shape)}, expected {exp_o.shape}")
-            bo = K * EPS32 * (float(np.abs(Lo).sum(1).max()) * wm.cond(xw, xw + exp_w) * len(refs) + 1.0 + float(np.abs(exp_o).max()))
-            selo = np.broadcast_to(mask[None, None], exp_o.shape)
-            worst = max(worst, check_close(np.where(selo, d.detach().double().numpy(), 0.0), np.where(selo, exp_o, 0.0), bo,
-                                           f"composite_disp_on_{case['other_kind']}_grid:{tag}", "disp(grid) of a composite vs reference"))
-    eff = max([dense_effect(q) if not q.linear else float(np.abs(q.mats[0] - np.eye(D, D + 1)).max()) for q in refs])
-    nt = len(refs) >= 2 and eff >= 0.05 and int(ok.sum()) >= 2
+    # points() / PointSetTransformer with generated (grid, axes) -> (to_grid, to_axes)
+    conv = "none"
+    if "via" in case:
+        rp, conv = check_points_api(comp, r, wm, case, xc, torch.float32, tag, not r.linear, own=cg)
+        worst = max(worst, rp)
+    eff = r.effect()
+    nt = nl >= 2 and eff >= 0.05 and int(ok.sum()) >= 2
     return {"ratio": worst, "nontrivial": nt,
-            "labels": [tag, f"k={len(refs)}", f"D={D}", f"ac={g['ac']}", f"N={N}", f"ctor={case['ctor']}", f"other={case['other_kind']}"]
-                      + sorted({s["cls"] for s in case["members"]})}
+            "labels": [tag, f"k={len(refs)}", f"leaves={nl}", f"D={D}", f"ac={g['ac']}", f"N={N}", f"ctor={case['ctor']}",
+                       f"other={case['other_kind']}", f"dense_after_moving={dense_after_moving(r)}", f"grid_pts>0={ngrid > 0}",
+                       f"other_pts>0={nother > 0}", f"via={case.get('via')}", conv,
+                       f"nested={any(s['cls'] in COMPOSITES for s in case['members'])}",
+                       f"mixedN={len({q.N for q in refs}) > 1}", f"own_size={cg['size'] == g['size']}",
+                       f"levels={'gsize' in str(case['members'])}"] + names}
 
 
 # ---------------------------------------------------------------------------------------
@@ -1186,15 +1489,20 @@ AFFINE_KEYS = {"A": ("affine", "homogeneous"), "K": ("shearing", "shear"), "T": 
                "R": ("rotation", "euler"), "S": ("scaling", "aniso"), "Q": ("quaternion", "quaternion")}
 
 
+NONRIGID_KEYS = {"DDF": DENSE[0], "SVF": DENSE[1], "FFD": DENSE[2], "SVFFD": DENSE[3]}
+
+
 @st.composite
-def generic_cases(draw):
-    D = draw(gen.dims())
-    g = draw(tgrids(D, 3, 9 if D == 2 else 6))
+def generic_specs(draw, g: dict, force_ac=False, short=False):
+    """Configuration + parameter values of a GenericSpatialTransform on grid descriptor `g` (B-spline components need
+    align_corners=True: with force_ac the descriptor is changed, otherwise they are only drawn for such grids)."""
+    D = len(g["size"])
     letters = draw(st.permutations(["T", "R", "S", "K", "A"] + (["Q"] if D == 3 else [])))
-    k = draw(st.integers(1, 4))
+    k = draw(st.integers(1, 2 if short else 4))
     letters = list(letters[:k])
     sep = draw(st.sampled_from(["", " o "]))
-    nonrigid = draw(st.sampled_from([None, "DDF", "SVF", "FFD", "SVFFD"]))
+    choices = [None, "DDF", "SVF"] + (["FFD", "SVFFD"] if (g["ac"] or force_ac) else [])
+    nonrigid = draw(st.sampled_from(choices))
     affine = draw(st.booleans()) or nonrigid is None
     if nonrigid in ("FFD", "SVFFD"):
         g["ac"] = True
@@ -1202,33 +1510,42 @@ def generic_cases(draw):
     comps = (["Affine"] if affine else []) + ([nonrigid] if nonrigid else [])
     if not first:
         comps = comps[::-1]
-    case = {"D": D, "grid": g, "affine_model": sep.join(letters), "transform": " o ".join(comps),
+    spec = {"cls": "GenericSpatialTransform", "affine_model": sep.join(letters), "transform": " o ".join(comps),
             "rotation_model": draw(st.sampled_from(["ZXZ", "XZX", "XYZ", "ZYX", "YXZ"])),
-            "route": draw(st.sampled_from(["setters", "dict"])), "rel": draw(rel_points(D, 2, 6)),
+            "route": draw(st.sampled_from(["setters", "dict"])),
             "values": {L: draw(elem_values(AFFINE_KEYS[L][1], D)) for L in letters} if affine else {}}
     if nonrigid:
-        cls = {"DDF": DENSE[0], "SVF": DENSE[1], "FFD": DENSE[2], "SVFFD": DENSE[3]}[nonrigid]
-        spec = draw(dense_specs(g, 1, classes=[cls]))
-        spec["route"] = "data_"
-        if "stride" in spec:
-            s = draw(st.integers(1, 3))
-            spec["stride"] = [s] * D
-            spec["transpose"] = False
-        if spec["field"] == "velocity":
-            spec["scale"] = None
-        case["nonrigid"] = spec
+        nr = draw(dense_specs(g, 1, classes=[NONRIGID_KEYS[nonrigid]]))
+        nr["route"] = "data_"
+        if "stride" in nr:
+            sd = draw(st.integers(1, 3))
+            nr["stride"] = [sd] * D
+            nr["transpose"] = False
+        if nr["field"] == "velocity":
+            nr["scale"] = None
+        spec["nonrigid"] = nr
+    return spec
+
+
+@st.composite
+def generic_cases(draw):
+    D = draw(gen.dims())
+    g = draw(tgrids(D, 3, 9 if D == 2 else 6))
+    spec = draw(generic_specs(g, force_ac=True))
+    case = {"D": D, "grid": g, "rel": draw(rel_points(D, 2, 6)),
+            "gsize": draw(st.lists(st.integers(2, 9 if D == 2 else 6), min_size=D, max_size=D))}
+    case.update({k: v for k, v in spec.items() if k != "cls"})
     return case
 
 
-def run_generic(case):
+def build_generic(case: dict, grid, g: dict):
+    """-> (GenericSpatialTransform, SeqRef of its members in order of application, list of member references)."""
     import deepali.spatial as S
     from deepali.spatial.generic import TransformConfig
 
-    D, g = case["D"], case["grid"]
+    D = len(g["size"])
     if KNOWN.active("F23") and case["route"] == "dict":
         raise Skip("excluded_known F23")
-    grid = make_grid(g)
-    m = ref.GridModel.from_desc(g)
     cfgkw = dict(transform=case["transform"], affine_model=case["affine_model"], rotation_model=case["rotation_model"])
     nr = case.get("nonrigid")
     dense_ref, praw = None, None
@@ -1243,9 +1560,6 @@ def run_generic(case):
             p64 = praw.double().numpy()
             fields = ffd_field(p64, tuple(g["size"][::-1]), nr["stride"]) if nr["cls"] in DENSE[2:] else p64
         dense_ref = DenseRef(fields, g["ac"], extra=extra + 4 * EPS32 * float(np.abs(fields).max()))
-        if nr["cls"] == DENSE[3]:
-            # SVFFD of the generic transform uses the default number of steps of the class: not configurable -> closed form with 5
-            pass
     config = TransformConfig(**cfgkw)
     letters = [c for c in case["affine_model"].replace(" o ", "")] if "Affine" in case["transform"].split(" o ") else []
     affine_refs = []  # in order of application: right-most letter first
@@ -1295,7 +1609,14 @@ def run_generic(case):
         want_names.extend([a[0] for a in affine_refs] if c == "Affine" else ["nonrigid"])
     if names != want_names:
         raise Violation("generic_member_order", f"members {names} for transform='{case['transform']}' affine_model='{case['affine_model']}', expected {want_names}")
-    r = SeqRef(refs)
+    return t, SeqRef(refs), refs
+
+
+def run_generic(case):
+    D, g = case["D"], case["grid"]
+    grid = make_grid(g)
+    m = ref.GridModel.from_desc(g)
+    t, r, refs = build_generic(case, grid, g)
     wm = WorldMap(r, m)
     xc = cube_points(m, case["rel"])[None]
     y = t(torch.tensor(xc, dtype=torch.float32))
@@ -1316,8 +1637,22 @@ def run_generic(case):
     selw = np.broadcast_to(ok[..., None], ew.shape)
     check_close(np.where(selw, yw.detach().double().numpy(), 0.0), np.where(selw, ew, 0.0), K * EPS32 * wm.cond(xw, ew) * len(refs),
                 "generic_world_points", "GenericSpatialTransform.points(axes=WORLD) vs reference world map")
+    # grid=True (what ImageTransformer passes for targets spanning the transform domain) and the dense view of the configuration
+    what = f"GenericSpatialTransform(transform='{case['transform']}', affine_model='{case['affine_model']}')"
+    rg, ngrid = check_forward_grid(t, r, wm, (g["size"], case.get("gsize") or g["size"]), "generic_forward_grid", what)
+    worst = max(worst, rg)
+    t.update()
+    d0 = t.disp()
+    xs = cube_coords(tuple(g["size"][::-1]), m.ac)
+    want_d = np.moveaxis(r.cube(xs, 0) - xs, -1, 0)[None]
+    if tuple(d0.shape) != want_d.shape:
+        raise Violation("generic_disp_shape", f"disp() has shape {tuple(d0.shape)}, expected {want_d.shape}")
+    seld = np.broadcast_to(r.valid(xs, 0)[None, None], want_d.shape)
+    worst = max(worst, check_close(np.where(seld, d0.detach().double().numpy(), 0.0), np.where(seld, want_d, 0.0),
+                                   wm.cube_bound(xs) * len(refs), "generic_disp", f"{what}.disp() vs reference at the sample points"))
     return {"ratio": worst, "nontrivial": len(refs) >= 2 and int(ok.sum()) >= 1,
-            "labels": [f"transform={case['transform']}", f"route={case['route']}", f"D={D}", f"k={len(refs)}", f"ac={g['ac']}"]}
+            "labels": [f"transform={case['transform']}", f"route={case['route']}", f"D={D}", f"k={len(refs)}", f"ac={g['ac']}",
+                       f"dense_after_moving={dense_after_moving(r)}", f"grid_pts>0={ngrid > 0}"]}
 
 
 # ---------------------------------------------------------------------------------------
@@ -1327,16 +1662,19 @@ def run_generic(case):
 @st.composite
 def warp_cases(draw):
     D = draw(gen.dims())
-    dense = draw(st.booleans())
     g = draw(tgrids(D, 3, 9 if D == 2 else 6))
     N = draw(st.sampled_from([1, 1, 2]))
-    if dense:
-        spec = draw(dense_specs(g, N, classes=DENSE[:3]))
-        if spec["cls"] in DENSE[2:]:
-            g["ac"] = True
-    else:
+    shape = draw(st.sampled_from(["tree", "tree", "tree", "tree", "generic", "generic", "dense", "dense", "linear"]))
+    if shape == "dense":
+        spec = draw(dense_specs(g, N))
+    elif shape == "linear":
         spec = draw(linear_specs(D, N))
-    kinds = ("own", "resized", "resized", "cropped", "other", "flip_ac") if dense else ("own", "resized", "cropped", "other", "other", "flip_ac")
+    elif shape == "tree":
+        spec = draw(tree_specs(g, N, dense_p=draw(st.sampled_from([0.7, 0.5, 0.7, 0.0])), depth=1, kmin=2, kmax=3))
+    else:
+        N = 1
+        spec = draw(generic_specs(g))
+    kinds = ("own", "resized", "resized", "cropped", "other", "other", "flip_ac")
     tg, tkind = draw(related_grids(g, kinds=kinds, max_size=9 if D == 2 else 6))
     # source grid: unrelated orientation, covering the transform domain with a margin
     d = draw(gen.directions(D))
@@ -1348,9 +1686,12 @@ def warp_cases(draw):
     src = {"size": ssize, "spacing": [round(cover * diam / (n - 1), 6) for n in ssize],
            "center": [round(c + o * diam, 4) for c, o in zip(g["center"], off)], "rot": d["rot"], "perm": d["perm"], "flip": d["flip"],
            "kind": d["kind"], "ac": draw(st.booleans())}
-    return {"D": D, "grid": g, "t": spec, "target": tg, "target_kind": tkind, "source": src, "same_source": draw(st.integers(0, 5)) == 0,
+    return {"D": D, "grid": g, "t": spec, "shape": shape, "target": tg, "target_kind": tkind, "source": src,
+            "same_source": draw(st.integers(0, 5)) == 0,
             "ramp": draw(_vals(-5.0, 5.0, D, 0.1)), "offset": draw(gen.qfloat(-50.0, 50.0, 1.0)),
-            "flip_coords": (not dense) and draw(st.integers(0, 3)) == 0, "NI": draw(st.sampled_from([1, N])),
+            # flip_coords is only applied to linear transforms, align_centers only to targets centred on the transform grid
+            "flip_coords": draw(st.integers(0, 3)) == 0, "align_centers": draw(st.integers(0, 5)) == 0,
+            "NI": draw(st.sampled_from([1, N])),
             "target_arg": draw(st.sampled_from(["explicit", "explicit", "explicit", "default"]))}
 
 
@@ -1358,25 +1699,31 @@ def run_warp(case):
     import deepali.spatial as S
 
     D, g, spec = case["D"], case["grid"], case["t"]
-    dense = spec["cls"] in DENSE
     tkind = case["target_kind"]
     tg = case["target"]
     if case["target_arg"] == "default":
-        tg, tkind = g, "own"
-    if KNOWN.active("F22") and dense and tkind in ("cropped", "other"):
-        raise Skip("excluded_known F22")
-    if KNOWN.active("N06-4") and case["flip_coords"] and tkind in ("cropped", "other"):
-        raise Skip("excluded_known N06-4")
+        tg, tkind = tree_grid(spec, g), "own"
     grid = make_grid(g)
     m = ref.GridModel.from_desc(g)
     t, r = build_any(spec, grid, g)
-    if case["flip_coords"]:
+    dense = not r.linear
+    flip = bool(case["flip_coords"]) and r.linear
+    # both readings of "align the target and source centers" (output grid / grid of the transform) coincide for these targets
+    centers = bool(case.get("align_centers")) and tkind in ("own", "resized", "flip_ac")
+    if KNOWN.active("F22") and dense and tkind in ("cropped", "other"):
+        raise Skip("excluded_known F22")
+    if KNOWN.active("N06-4") and flip and tkind in ("cropped", "other"):
+        raise Skip("excluded_known N06-4")
+    if flip:
         r = FlipRef(r)
     wm = WorldMap(r, m)
     N = r.N
+    nl = r.leaves()
     sg = tg if case["same_source"] else case["source"]
     target, source = make_grid(tg), make_grid(sg)
     mt, ms = ref.GridModel.from_desc(tg), ref.GridModel.from_desc(sg)
+    # where the samples of the image are taken to be: with align_centers the source centre is put on the centre of the transform grid
+    ms_at = ref.GridModel.from_desc(dict(sg, center=[float(v) for v in m.c])) if centers else ms
     # image: ramp in the index space of the source grid
     gvec = np.asarray(case["ramp"], dtype=np.float64)
     idx = ms.index_points()
@@ -1388,8 +1735,10 @@ def run_warp(case):
         kw["target"] = target
     if not (case["same_source"] and case["target_arg"] == "default"):
         kw["source"] = source
-    if case["flip_coords"]:
+    if flip:
         kw["flip_coords"] = True
+    if centers:
+        kw["align_centers"] = True
     tr = S.ImageTransformer(t, **kw)
     out = tr(data)
     No = max(N, NI)
@@ -1397,34 +1746,39 @@ def run_warp(case):
     if tuple(out.shape) != want_shape:
         raise Violation("warp_shape", f"ImageTransformer output shape {tuple(out.shape)}, expected {want_shape}")
     xw = mt.world_points()
-    tag = ("nonrigid" if dense else "linear") + ("_flip" if case["flip_coords"] else "")
+    xcube = wm.to_cube(xw)
+    tag = ("nonrigid" if dense else "linear") + ("_flip" if flip else "") + ("_centers" if centers else "")
+    names = spec_classes(spec)
     worst, ncomp = 0.0, 0
     gmax = float(np.abs(gvec).max())
     for b in range(No):
         yw = wm.world(xw, b)
-        si = ms.points(yw, "world", "grid")
+        si = ms_at.points(yw, "world", "grid")
         mask = np.all((si >= 0.02) & (si <= ms.n - 1.02), axis=-1)
-        if dense:
-            mask &= inside_hull(m, xw)
+        # dense (sub-)members only inside the hull of their samples, for every stage of a sequence
+        mask &= r.valid(xcube, b)
         if not mask.any():
             continue
         scale = 1.0 + 0.5 * (b % NI)
         expect = (si @ gvec + case["offset"]) * scale
         Ls = ms.matrix("world", "grid")[:, :D]
-        icond = float(np.abs(Ls).sum(1).max()) * wm.cond(xw, yw) + ms.cond("world", "grid", yw)
+        icond = float(np.abs(Ls).sum(1).max()) * wm.cond(xw, yw) * nl + ms_at.cond("world", "grid", yw)
         bound = K * EPS32 * (gmax * scale * D * icond + float(np.abs(img).max()))
         o = out[b, 0].detach().double().numpy()
         worst = max(worst, check_close(np.where(mask, o, 0.0), np.where(mask, expect, 0.0), bound, f"warp_{tkind}_target:{tag}",
-                                       f"ImageTransformer({spec['cls']}, target={tkind} ac={tg['ac']}, source {'= target' if case['same_source'] else 'other'}"
-                                       f" ac={sg['ac']}, flip_coords={case['flip_coords']}) vs I(T(x)), item {b}"))
+                                       f"ImageTransformer({describe(spec)}, target={tkind} ac={tg['ac']}, source {'= target' if case['same_source'] else 'other'}"
+                                       f" ac={sg['ac']}, flip_coords={flip}, align_centers={centers}) vs I(T(x)), item {b}"))
         ncomp += int(mask.sum())
     if ncomp == 0:
         raise Skip("no target sample maps into the source field of view")
-    eff = dense_effect(r.inner if case["flip_coords"] else r) if dense else linear_effect(spec, D)
+    eff = r.effect()
     nt = eff >= 0.05 and gmax >= 0.5 and ncomp >= 4 and tkind != "own"
+    top = spec["cls"] if spec["cls"] in COMPOSITES or spec["cls"] == "GenericSpatialTransform" else "leaf"
     return {"ratio": worst, "nontrivial": nt,
-            "labels": [spec["cls"], f"target={tkind}", f"D={D}", f"ac={g['ac']}", f"target_ac={tg['ac']}", f"source_ac={sg['ac']}", f"N={N}",
-                       f"flip={case['flip_coords']}", f"same_source={case['same_source']}"]}
+            "labels": [f"top={top}", "nonrigid" if dense else "linear", f"leaves={nl}", f"target={tkind}", f"D={D}", f"ac={g['ac']}",
+                       f"target_ac={tg['ac']}", f"source_ac={sg['ac']}", f"N={N}", f"flip={flip}", f"centers={centers}",
+                       f"same_source={case['same_source']}", f"dense_after_moving={dense_after_moving(r)}",
+                       f"levels={'gsize' in str(spec)}"] + names}
 
 
 FACETS = [
@@ -1437,20 +1791,27 @@ FACETS = [
                "(own/resized/flip_ac/cropped/unrelated) x (grid, axes)->(to_grid, to_axes); non-trivial = |M - I|max >= 0.05 and oblique or anisotropic grid",
           quick=640, thorough=16000, shards=16, quick_shards=4),
     Facet("dense_views", lambda c: run_views(c, True), strategy=lambda: view_cases(True),
-          rule="dense class x field kind (cube-affine, hash-noise, invariant affine velocity, affine/noise spline coefficients) x route x groups; "
+          rule="dense class x field kind (cube-affine, hash-noise, invariant affine velocity, affine/noise spline coefficients) x route (constructor "
+               "tensor / Parameter, data_(), in-place change of the parameters after update()) x groups; "
                "same views; non-trivial = |u|max >= 0.05 cube units, oblique or anisotropic grid, >= 2 compared samples of the other grid inside the domain",
           quick=520, thorough=12000, shards=16, quick_shards=4),
     Facet("composition", run_composite, strategy=composite_cases,
-          rule="Sequential / MultiLevel of 1-3 generated members (linear only, or mixed with dense); forward, tensor, disp (own and other grid), "
-               "members unchanged; non-trivial = >= 2 members, effect >= 0.05, >= 2 compared points",
-          quick=520, thorough=12000, shards=16, quick_shards=4),
+          rule="Sequential / MultiLevel of 1-3 generated members (linear only, or mixed with dense; a member may be a nested composite or a "
+               "generic configuration, groups 1 and N may be mixed); forward on point sets / grid shaped tensors, forward(x, grid=True) on "
+               "same-domain grids of two sizes, tensor, disp and flow (own, resized, flip_ac, cropped and unrelated grid), points() / "
+               "PointSetTransformer for generated (grid, axes) pairs, members unchanged; non-trivial = >= 2 leaves, effect >= 0.05, "
+               ">= 2 compared points",
+          quick=600, thorough=10000, shards=16, quick_shards=4),
     Facet("generic", run_generic, strategy=generic_cases,
           rule="GenericSpatialTransform: affine_model = 1-4 distinct letters of TRSKA(Q) in matrix or ' o ' notation, optional non-rigid component "
-               "before/after, rotation_model, parameters via member setters or params dict; vs explicit reference composite; non-trivial = >= 2 members",
+               "before/after, rotation_model, parameters via member setters or params dict; forward, forward(x, grid=True), disp(), world points "
+               "vs explicit reference composite; non-trivial = >= 2 members",
           quick=280, thorough=6000, shards=8, quick_shards=2),
     Facet("warp", run_warp, strategy=warp_cases,
-          rule="ImageTransformer(T, target, source)(ramp image): T linear or DDF/SVF/FFD, target in {default, own, resized, flip_ac, cropped, unrelated}, "
-               "source unrelated oriented grid covering the domain (or = target), flip_coords (linear), image batch 1/N; non-trivial = effect >= 0.05, "
-               "ramp gradient >= 0.5/sample, >= 4 compared samples, target != transform grid",
-          quick=560, thorough=12000, shards=16, quick_shards=4),
+          rule="ImageTransformer(T, target, source)(ramp image): T linear leaf, DDF/SVF/FFD/SVFFD, Sequential/MultiLevel tree of 2-3 members "
+               "(linear and dense in every order, nested, mixed groups) or generic configuration; target in {default, own, resized, flip_ac, "
+               "cropped, unrelated}, source unrelated oriented grid covering the domain (or = target), flip_coords (linear T), align_centers "
+               "(target centred on the transform grid), image batch 1/N; non-trivial = effect >= 0.05, ramp gradient >= 0.5/sample, "
+               ">= 4 compared samples, target != transform grid",
+          quick=680, thorough=12000, shards=16, quick_shards=4),
 ]
